@@ -74,6 +74,21 @@ loop(F_SIM, "Simulation._execute_until", 1, modifies="world", keeps=LOOP_CONST,
           ("heap-tracing-off", lambda L: Not(L.heap._tracing_enabled)),
           ("pushed-what-invoke-returned", pushed_what_invoke_returned)])
 
+# EventHeap.push(list): `for event in events: self._push_single(event)` - every event of the list becomes pending, once per
+# occurrence, nothing else leaves the heap, and the caller's list is left exactly as it was given (the heap keeps its OWN
+# storage: a list handed to schedule() stays the caller's)
+F_HEAP = "happysimulator/core/event_heap.py"
+loop(F_HEAP, "EventHeap.push", 1, modifies=[("EventHeap", "_heap"), ("EventHeap", "_primary_event_count")],
+     inv=[("size-grows-by-the-prefix", lambda L: slen(L.self._heap) == slen(L.old(L.self)._heap) + L.i),
+          ("every-pushed-event-is-pending", lambda L: forall(Int, lambda j: implies(
+              (0 <= j) & (j < L.i), mk_bool(z3.Select(hcnt(L.self), seq_term(L.seq)[j.t]) > 0)), "j")),
+          ("nothing-leaves-the-heap", lambda L: forall(Ref(Event), lambda x: mk_bool(
+              z3.Select(hcnt(L.self), x._ref) >= z3.Select(hcnt(L.old(L.self)), x._ref)))),
+          ("primary-count-grows-by-at-most-the-prefix", lambda L:
+              (L.self._primary_event_count >= L.old(L.self)._primary_event_count)
+              & (L.self._primary_event_count <= L.old(L.self)._primary_event_count + L.i)),
+          ("given-list-untouched", lambda L: mk_bool(seq_term(L.seq) == seq_term(L.events)))])
+
 
 from specs.common import *  # noqa: E402,F401
 import specs.common as _common  # noqa: E402
@@ -267,12 +282,37 @@ def hcnt(o):
     return EHEAP.dt.cnt(o._heap.term)
 
 
-fn(EventHeap, "_push_single", args={"event": Ref(Event)}, requires=[lambda s: Not(s.self._tracing_enabled)], ensures=[
+fn(EventHeap, "_push_single", args={"event": Ref(Event)}, modifies=["_heap", "_primary_event_count"],
+   requires=[lambda s: Not(s.self._tracing_enabled)], ensures=[
     ("adds-one-occurrence", lambda s: mk_bool(hcnt(s.self) == z3.Store(hcnt(s.old(s.self)), s.event._ref,
                                                                       z3.Select(hcnt(s.old(s.self)), s.event._ref) + 1))),
     ("size+1", lambda s: slen(s.self._heap) == slen(s.old(s.self)._heap) + 1),
     ("primary-count", lambda s: s.self._primary_event_count == s.old(s.self)._primary_event_count + ite(s.event.daemon, 0, 1)),
     ("event-untouched", lambda s: unchanged(s, s.event))])
+
+
+def _push_list_setup(s):
+    from pyvc import ctx as _c
+    _c.cur().ghost_args["pushed_list0"] = seq_term(s.events)
+    return []
+
+
+# push(list) through the contract of _push_single (modular); push(single event) is _push_single itself
+fn(EventHeap, "push", label="list", args={"events": Seq(Ref(Event))}, uses=[(EventHeap, "_push_single")], setup=_push_list_setup,
+   requires=[lambda s: Not(s.self._tracing_enabled)], ensures=[
+    ("every-given-event-is-pending", lambda s: forall(Int, lambda j: implies(
+        (0 <= j) & (j < slen(s.events)), mk_bool(z3.Select(hcnt(s.self), seq_term(s.events)[j.t]) > 0)), "j")),
+    ("size-grows-by-the-length-of-the-list", lambda s: slen(s.self._heap) == slen(s.old(s.self)._heap) + slen(s.events)),
+    ("nothing-leaves-the-heap", lambda s: forall(Ref(Event), lambda x: mk_bool(
+        z3.Select(hcnt(s.self), x._ref) >= z3.Select(hcnt(s.old(s.self)), x._ref)))),
+    ("primary-count-grows-by-at-most-the-length", lambda s:
+        (s.self._primary_event_count >= s.old(s.self)._primary_event_count)
+        & (s.self._primary_event_count <= s.old(s.self)._primary_event_count + slen(s.events))),
+    ("the-callers-list-is-left-as-given", lambda s: mk_bool(seq_term(s.events) == G("pushed_list0")))])
+fn(EventHeap, "push", label="single", args={"events": Ref(Event)}, requires=[lambda s: Not(s.self._tracing_enabled)], ensures=[
+    ("adds-one-occurrence", lambda s: mk_bool(hcnt(s.self) == z3.Store(hcnt(s.old(s.self)), s.events._ref,
+                                                                      z3.Select(hcnt(s.old(s.self)), s.events._ref) + 1))),
+    ("primary-count", lambda s: s.self._primary_event_count == s.old(s.self)._primary_event_count + ite(s.events.daemon, 0, 1))])
 
 fn(EventHeap, "pop", returns=Ref(Event), modifies=["_heap", "_primary_event_count", "_current_time"],
    requires=[lambda s: Not(s.self._tracing_enabled), lambda s: slen(s.self._heap) > 0], ensures=[
